@@ -291,6 +291,7 @@ package inprocgrpc
 //@   ensures[C20,C01] no_frame_is_held_back_after_a_streaming_receive: !lastMessage && result == nil && old(s.last) == nil ==> s.last == nil
 //@   ensures[C01] a_peeked_message_is_delivered_exactly_once: !lastMessage && !called(readMessage) && called("inprocgrpc.Cloner.Copy") && lastresult("inprocgrpc.Cloner.Copy") == nil ==> s.last == nil
 //@   assert_call[C01,C08] (*inProcessClientStream).ensureNoMoreLocked : the_delivered_frame_was_consumed_before_probing: arg0 == s && arg1 == m && (!called(readMessage) ==> s.last == nil)
+//@   ensures[C02] end_of_stream_is_reported_only_when_the_reply_channel_ended: result == io.EOF && !called("inprocgrpc.Cloner.Copy") ==> called(readMessage) && lastresult(readMessage, 1) == io.EOF
 //@   ensures[C04,C02] every_failure_before_a_message_is_translated: !called("inprocgrpc.Cloner.Copy") ==> called("internal.TranslateContextError") && result == lastresult("internal.TranslateContextError")
 //@   ensures[C08] single_response_mode_checks_for_extra_messages: lastMessage && called("inprocgrpc.Cloner.Copy") && lastresult("inprocgrpc.Cloner.Copy") == nil ==> calls("(*inProcessClientStream).ensureNoMoreLocked") == 1 && result == lastresult("(*inProcessClientStream).ensureNoMoreLocked")
 //@   ensures[C01] streaming_mode_returns_the_copy_result: !lastMessage && called("inprocgrpc.Cloner.Copy") ==> result == lastresult("inprocgrpc.Cloner.Copy") && !called("(*inProcessClientStream).ensureNoMoreLocked")
